@@ -37,7 +37,7 @@ RULE = ("(1) every history of length<=L (quick 4; thorough 6 for DictLoader, 5 f
         "DictLoader and FileSystemLoader) and additionally FileSystemLoader with "
         "zigzag mtimes (alternately above/below the initial one) and PackageLoader with mtimes moving "
         "up and down; (3) bytecode caches (the template cache must behave the same whether the code "
-        "of a template was compiled or came out of a bytecode cache): every 8th (loader, cache size, "
+        "of a template was compiled or came out of a bytecode cache): every 10th (loader, cache size, "
         "auto_reload) execution of the enumerated histories and every 2nd of the long ones -- the "
         "choice rotating from history to history -- is repeated with Environment(bytecode_cache=...) "
         "in one of the modes cold (empty in-memory BytecodeCache subclass of the harness: hits after "
@@ -76,7 +76,7 @@ ASSUMPTIONS = [
     "non-reloading environment does after its loader attribute is replaced)",
 ]
 NSHARDS = {"quick": 16, "thorough": 16}
-BUDGET_S = {"quick": 90, "thorough": 1200}
+BUDGET_S = {"quick": 105, "thorough": 1200}
 FLOORS = {
     "quick": {"evaluations": 36000, "distinct": 1300,
               "counters": {"lookups": 90000, "loader_calls": 80000, "served_from_cache": 16000,
@@ -103,7 +103,10 @@ FLOORS = {
                               "exec_fszz": 11000, "exec_size3": 190000, "long_histories": 3200,
                               "cache_len_checks": 2800000, "cache_content_checks": 2800000,
                               "cache_order_checks": 2200000, "reload_in_full_cache": 17000,
-                              "fs_reload_mtime_backwards": 9800}},
+                              "fs_reload_mtime_backwards": 9800,
+                              "exec_bcc_cold": 80000, "exec_bcc_warm": 80000,
+                              "exec_bcc_fswarm": 21000, "bytecode_hits": 145000,
+                              "lookup_of_changed_bytecode_loaded": 7500}},
 }
 
 NAMES = ("a", "b", "c")
@@ -763,7 +766,7 @@ def run(ctx):
                     continue        # a<->b renaming of an enumerated history
                 nexec += exec_all(ctx, kit, stats, hist, kinds,
                                   SIZES_LONG if len(hist) >= 5 else SIZES, "exhaustive",
-                                  rot=idx, bcc_every=8)
+                                  rot=idx, bcc_every=10)
                 if 2 <= len(hist) <= 5:
                     ctx.dist(hist)
                 elif len(hist) == 6:
